@@ -29,6 +29,21 @@ func VerifC13Notify() {
 		}
 		sub[i] = want
 	}
+	// a second registered type with its own subscribers: subscriptions are per type
+	m2 := s.a2.expectOne(&hagallpb.EntityComponentTypeAddRequest{Type: hagallpb.MsgType_MSG_TYPE_ENTITY_COMPONENT_TYPE_ADD_REQUEST, Timestamp: vts(), RequestId: 8, EntityComponentTypeName: "t2"},
+		hagallpb.MsgType_MSG_TYPE_ENTITY_COMPONENT_TYPE_ADD_RESPONSE, "setup.type_add2")
+	var tr2 hagallpb.EntityComponentTypeAddResponse
+	m2.DataTo(&tr2)
+	t2 := tr2.EntityComponentTypeId
+	var sub2 [3]bool
+	for i, c := range conns {
+		if verifnd.Tier() == 1 || i == 2 {
+			sub2[i] = verifnd.Bool()
+			if sub2[i] {
+				c.expectSubscribe(t2)
+			}
+		}
+	}
 	s.w.drainAll()
 	present := [3]bool{true, true, true} // a0, a1, a2 still members
 
@@ -42,9 +57,12 @@ func VerifC13Notify() {
 		s.a2.do(&hagallpb.EntityComponentTypeSubscribeRequest{Type: hagallpb.MsgType_MSG_TYPE_ENTITY_COMPONENT_TYPE_SUBSCRIBE_REQUEST, Timestamp: vts(), RequestId: 3, EntityComponentTypeId: tid})
 		own := s.a2.drain()
 		ok := countT(own, hagallpb.MsgType_MSG_TYPE_ENTITY_COMPONENT_TYPE_SUBSCRIBE_RESPONSE) == 1
-		verifnd.Assert(verifnd.Iff(tid == s.tReg, ok), "C13.subscribe.only_registered_types")
-		if ok {
+		verifnd.Assert(verifnd.Iff(verifnd.Or(tid == s.tReg, tid == t2), ok), "C13.subscribe.only_registered_types")
+		if ok && tid == s.tReg {
 			sub[2] = true
+		}
+		if ok && tid == t2 {
+			sub2[2] = true
 		}
 	case 2: // a1 unsubscribes (arbitrary type id)
 		stepName = "unsubscribe"
@@ -54,6 +72,9 @@ func VerifC13Notify() {
 		if tid == s.tReg {
 			sub[1] = false
 		}
+		if tid == t2 {
+			sub2[1] = false
+		}
 	case 3: // a2 (owns nothing) unsubscribes from the registered type
 		stepName = "unsubscribe_a2"
 		s.a2.do(&hagallpb.EntityComponentTypeUnsubscribeRequest{Type: hagallpb.MsgType_MSG_TYPE_ENTITY_COMPONENT_TYPE_UNSUBSCRIBE_REQUEST, Timestamp: vts(), RequestId: 3, EntityComponentTypeId: s.tReg})
@@ -62,12 +83,12 @@ func VerifC13Notify() {
 	case 4: // a2 leaves
 		stepName = "leave"
 		s.a2.rh.HandleDisconnect(nil)
-		sub[2], present[2] = false, false
+		sub[2], sub2[2], present[2] = false, false, false
 	case 5: // a2 leaves and comes back: its subscription is gone
 		stepName = "rejoin"
 		s.a2.rh.HandleDisconnect(nil)
 		s.a2.mustJoin(s.a0.sid)
-		sub[2] = false
+		sub[2], sub2[2] = false, false
 	}
 	s.w.drainAll()
 
@@ -93,7 +114,12 @@ func VerifC13Notify() {
 	for _, m := range own {
 		verifnd.Assert(!isBroadcastType(typeNum(m)), "C13.never_own_change", stepName, kn)
 	}
-	anySub := verifnd.Or(sub[0], sub[1], sub[2])
+	onT2 := r.tid == t2
+	var subOf [3]bool
+	for i := range subOf {
+		subOf[i] = verifnd.IteBool(onT2, sub2[i], sub[i])
+	}
+	anySub := verifnd.Or(subOf[0], subOf[1], subOf[2])
 	bt := map[int]hagallpb.MsgType{kCompAdd: hagallpb.MsgType_MSG_TYPE_ENTITY_COMPONENT_ADD_BROADCAST, kCompUpdate: hagallpb.MsgType_MSG_TYPE_ENTITY_COMPONENT_UPDATE_BROADCAST, kCompDelete: hagallpb.MsgType_MSG_TYPE_ENTITY_COMPONENT_DELETE_BROADCAST}[kind]
 	for i, c := range conns {
 		if i == actorIdx {
@@ -103,20 +129,20 @@ func VerifC13Notify() {
 		n := countT(got, bt)
 		verifnd.Assert(len(got) == n && n <= 1, "C13.only_the_notification_at_most_once", stepName, kn, memberName(i-0))
 		var exp bool
-		onReg := r.tid == s.tReg
+		onReg := verifnd.Or(r.tid == s.tReg, onT2)
 		if kind == kCompUpdate {
-			exp = verifnd.And(accepted, present[i], sub[i])
+			exp = verifnd.And(accepted, present[i], subOf[i])
 		} else {
 			// add and delete are told to every other member while the type has a subscriber
 			exp = verifnd.And(accepted, onReg, present[i], anySub)
 		}
 		// a subscriber is told about every change by others; a non-subscriber never about updates;
 		// while nobody subscribes nobody is told
-		verifnd.Assert(verifnd.Implies(verifnd.And(accepted, onReg, present[i], sub[i]), n == 1), "C13.subscriber_is_notified", stepName, kn)
+		verifnd.Assert(verifnd.Implies(verifnd.And(accepted, onReg, present[i], subOf[i]), n == 1), "C13.subscriber_is_notified", stepName, kn)
 		verifnd.Assert(verifnd.Implies(!anySub, n == 0), "C13.nobody_subscribed_nobody_notified", stepName, kn)
 		verifnd.Assert(verifnd.Implies(!present[i], n == 0), "C13.departed_not_notified", stepName, kn)
 		if kind == kCompUpdate {
-			verifnd.Assert(verifnd.Implies(!sub[i], n == 0), "C13.update_reaches_subscribers_only", stepName, kn)
+			verifnd.Assert(verifnd.Implies(!subOf[i], n == 0), "C13.update_reaches_subscribers_only", stepName, kn)
 		}
 		verifnd.Assert(verifnd.Iff(exp, n == 1), "C13.recipients_match_reference", stepName, kn)
 	}
